@@ -422,6 +422,13 @@ def jobs(tier, seed):
         for k, tok in enumerate(core6 if q else _toks_for(2, q)):
             for form in (("list", "str") if not q else (("list", "str")[k % 2],)):
                 out.append(dict(h="roundtrip", maze=dict(n=2, kind=kind, sym_bits="all", ends="sym"), tok=tok, form=form, reps=True))
+    # solved mazes whose stored solution is ANY simple path of the maze (not the solver's choice): 2x2 all mazes, 3x3 around a percolation base
+    for k, tok in enumerate(core6):
+        out.append(dict(h="roundtrip", maze=dict(n=2, kind="SolvedMaze", sym_bits="all", ends=[[0, 0], [0, 0]], path="any", maxlen=4), tok=tok, form=("list", "str")[k % 2], reps=True))
+    b_any = T.base_maze(3, "perc", seed * 100 + 77)
+    for k, tok in enumerate([["legacy", "AOTP_UT_uniform", None], ["modular", "AOTP_CTT_indexed"]] if q else core6):
+        out.append(dict(h="roundtrip", maze=dict(n=3, kind="SolvedMaze", base=b_any.astype(int).tolist(), sym_bits=_sym_positions(b_any, 2, rng), ends=[[0, 0], [0, 0]],
+                                                 path="any", maxlen=4, rowcol=False), tok=tok, form=("str", "list")[k % 2], reps=True, linked=True))
     # n = 3: generated base mazes (tree / percolation) with 3 symbolic bits
     n3_bases = [("dfs", 1), ("perc", 2)] if q else [("dfs", 1), ("perc", 2), ("dfs", 3), ("perc", 4), ("dfs", 5), ("perc", 6)]
     for bk, bs in n3_bases:
@@ -507,6 +514,6 @@ META = dict(
     outside=["grids above 20; 3x3 beyond the sampled bases in the quick tier", "the regex coords_string_split_UT on symbolic strings (only ever run on concrete strings)",
              "RNG outcomes beyond the representatives when more than 4 independent flips / 3 shuffled items occur",
              "str tokens in the tokens_between lemma (abstracted to ints; the function only compares tokens with ==)"],
-    assumptions=["solutions are the solver's shortest paths", "precondition of parsing back: every row and column index occurs in some connection (stated by the property)"],
+    assumptions=["solutions are the solver's shortest paths, except in the 'any simple path' instances (2x2 all mazes, 3x3 around one base)", "precondition of parsing back: every row and column index occurs in some connection (stated by the property)"],
     engine="symx path-forking executor over z3 " + z3.get_version_string() + "; CrossHair 0.0.110 for the lemmas",
 )
